@@ -344,7 +344,7 @@ def _in_struct_literal(toks, q):
 # std methods with a vstd specification strong enough for the contracts here (used on the receivers this code base has)
 # (probed: String::from(&str) and .into() are accepted WITHOUT a usable specification, so they are not listed)
 SPECIFIED_CALLS = {"len", "is_empty", "push", "unwrap", "is_some", "is_none", "is_ok", "is_err", "as_str", "to_string", "to_owned", "new",
-                   "clear", "clone", "cloned", "Ok", "Err", "Some",
+                   "clear", "cloned", "Ok", "Err", "Some",   # not "clone": a derived Clone of a user struct is accepted without a specification
                    # probed 2026-10-05 (a postcondition stating the documented result verifies): integer and Option/Result/Vec helpers
                    "saturating_sub", "wrapping_sub", "checked_add", "checked_sub", "min", "max", "unwrap_or", "unwrap_or_default", "ok_or", "ok",
                    "first", "last", "pop", "append", "swap_remove", "truncate", "as_bytes"}
